@@ -89,13 +89,20 @@ def tapscript_spend(draw):
     return dict(kind='tapscript-spend', kw=dict(spendtx=c['tx'].ser().hex(), spendtxin=c['fund'].ser().hex(), flags=STD))
 
 
+NO_P2SH = STD & ~F['P2SH'] & ~F['WITNESS'] & ~F['CLEANSTACK'] & ~F['TAPROOT']      # consistent set without the P2SH rule
+spend_flags = st.sampled_from([STD, STD, STD & ~F['CLEANSTACK'], STD & ~F['NULLFAIL'] & ~F['LOW_S'], NO_P2SH])
+
+
 @st.composite
 def legacy_spend(draw):
     from . import spends
     rnd = draw(st.randoms(use_true_random=False))
-    typ = draw(st.sampled_from(['p2pkh', 'p2sh-multisig', 'p2wsh', 'p2sh-p2wpkh', 'multisig']))
+    typ = draw(st.sampled_from(['p2pkh', 'p2sh-multisig', 'p2sh-script', 'p2wsh', 'p2sh-p2wpkh', 'multisig']))
     c = spends.build(rnd, typ)
-    return dict(kind='spend-' + typ, kw=dict(spendtx=c['tx'].ser().hex(), spendtxin=c['fund'].ser().hex(), flags=STD))
+    flags = draw(spend_flags)
+    if typ in ('p2wsh', 'p2sh-p2wpkh') and flags == NO_P2SH:
+        flags = STD
+    return dict(kind='spend-' + typ + ('-noP2SH' if flags == NO_P2SH else ''), kw=dict(spendtx=c['tx'].ser().hex(), spendtxin=c['fund'].ser().hex(), flags=flags))
 
 
 def sessions(short=False):
